@@ -127,3 +127,23 @@ func exists(lo, hi int, f func(int) bool) bool {
 //@   forall r1 KeyGroupRange, r2 KeyGroupRange, g int
 //@   requires r1.Start <= g && g < r1.End && r2.Start <= g && g < r2.End
 //@   ensures r1.Overlaps(r2)
+
+// ---- a range's key groups: Start, Start+1, ..., End-1; IndexOf is the inverse (C06, C10: per
+// key-group structures of an operator are built for exactly the groups it owns).
+//@ func KeyGroupRange.Size
+//@   property C05 C06 C10
+//@   modifies nothing
+//@   ensures result == r.End - r.Start
+
+//@ func KeyGroupRange.KeyGroups
+//@   property C05 C06 C10
+//@   requires r.Start >= 0 && r.Start <= r.End && r.End <= 65536
+//@   modifies nothing
+//@   ensures len(result) == r.End - r.Start && forall(0, len(result), func(j int) bool { return int(result[j]) == r.Start + j })
+//@   loop 0:
+//@     invariant len(keyGroups) == r.End - r.Start && forall(0, i, func(j int) bool { return int(keyGroups[j]) == r.Start + j })
+
+//@ func KeyGroupRange.IndexOf
+//@   property C05 C06 C10
+//@   modifies nothing
+//@   ensures result == int(kg) - r.Start
